@@ -138,8 +138,23 @@ ChainTable(i) == [name |-> "T" \o Pad(i),
                            \o (IF i > 1 THEN <<RefCol("r1", "T" \o Pad(i - 1), "id", FALSE)>> ELSE <<>>)
                            \o <<PrimCol("n", "string", 20, FALSE, FALSE)>>]
 Chain(n) == [i \in 1..n |-> ChainTable(i)]
+\* forks: k chains of equal length hanging off one shared table; a table's name sorts before, and its declaration comes
+\* before, the table it refers to (the shared table is declared last).  The generators order tables of equal depth by
+\* name and by source line, so every table here must be placed by its depth alone.  Two versions: the shared table, then
+\* all of them (every chain table is an added table of the delta).
+ForkTable(c, j, len) ==
+  [name |-> "C" \o ToString(c) \o "_" \o ToString(len - j + 1),
+   cols |-> <<PrimCol("id", "int", 0, TRUE, FALSE),
+              RefCol("r1", IF j = 1 THEN "Zbase" ELSE "C" \o ToString(c) \o "_" \o ToString(len - j + 2), "id", FALSE),
+              PrimCol("n", "string", 20, FALSE, FALSE)>>]
+ZBase == [name |-> "Zbase", cols |-> <<PrimCol("id", "int", 0, TRUE, FALSE)>>]
+RECURSIVE ForkSeq(_, _, _)
+ForkSeq(c, k, len) == IF c > k THEN <<>> ELSE [i \in 1..len |-> ForkTable(c, len - i + 1, len)] \o ForkSeq(c + 1, k, len)
+Fork(k, len) == ForkSeq(1, k, len) \o <<ZBase>>
 EmitChains == /\ Deep /\ step = 0 /\ vs = << <<>> >>
               /\ \A n \in {2, 9, 10, 11, 12, 14} : PrintT(<<"SCN", ToJson([versions |-> <<Chain(n)>>])>>)
+              /\ \A k \in {2, 3}, len \in {3, 4} :
+                   PrintT(<<"SCN", ToJson([versions |-> << <<ZBase>>, Fork(k, len) >>, keeporder |-> TRUE, reps |-> 300])>>)
               /\ step' = Len(Names) + MaxEdits + 1 /\ UNCHANGED vs
 
 Next == Setup \/ Edit \/ Emit \/ EmitChains
